@@ -122,9 +122,14 @@ def _oracle_job(pp, job):
                 m1 = _res(pp, lambda: root.matches(s))
                 if m1[0] == "ok" and pall[0] in ("ok", "exc") and m1[1] != (pall[0] == "ok"):
                     rec("matches(s) == parse_all succeeds", s, pall[0] == "ok", m1[1])
+                if m1[0] == "exc" and pall[0] == "exc":
+                    # matches() answers whether parse_all succeeds: a parse that fails - softly or fatally - is `False`
+                    rec("matches(s) == parse_all succeeds", s, False, list(m1))
                 eq = _res(pp, lambda: root == s)
                 if eq[0] == "ok" and pall[0] in ("ok", "exc") and eq[1] != (pall[0] == "ok"):
                     rec("(expr == s) == parse_all succeeds", s, pall[0] == "ok", eq[1])
+                if eq[0] == "exc" and pall[0] == "exc":
+                    rec("(expr == s) == parse_all succeeds", s, False, list(eq))
                 se = _res(pp, lambda: (fresh() + pp.StringEnd()).parse_string(s).as_list())
                 if uniform_ws and pall[0] in ("ok", "exc") and se[0] in ("ok", "exc"):
                     # the statement equates *success*; tokens are compared with the plain parse above (an And skips
